@@ -34,7 +34,7 @@ import json, os
 import vlib
 
 GROUP = 'term'
-TRUSTED = ['Python rendering of lines of printable ASCII, tabs (next multiple of 8) and a fixed set of wide/2-byte characters as the reference of oracle (i)/(ii)',
+TRUSTED = ['Python rendering of lines of printable ASCII, tabs (next multiple of 8), a fixed set of wide/2-byte characters and control characters (C0/C1 -> U+FFFD, DEL -> one blank cell) as the reference of oracle (i)/(ii)',
            'the terminal emulator coq/TermEmu.v is the definition of what the byte stream shows (a real terminal is not in the loop)']
 
 MARK = '@'
@@ -44,11 +44,33 @@ ATTR_SHIFT = 1 << 21
 WFIX = True
 SPLIT = True
 NQUICK = 170
-NAIMED = 90
+NAIMED = 108
 NSPLIT = 36
 
 # --------------------------------------------------------------------------------------------
 # rendering reference
+
+
+# control characters in buffer lines (file contents only; never typed): ren.c / uc.c / led.c draw
+#   0x01..0x1f (not tab) and the C1 controls U+0080..U+009F  -> uc_isbell -> the placeholder U+FFFD, one cell (ren_placeholder)
+#   0x7f (DEL)                                              -> no placeholder, uc_wid = 1, !uc_isprint -> one BLANK cell
+# (coq/RenDefs.v: ren_placeholder / bell_glyph / ren_cwid, coq/UcDefs.v: uc_isprint say the same)
+BELL_GLYPH = 0xfffd
+CTL_BELL = [chr(c) for c in range(1, 32) if c not in (9, 10)] + ['\x85', '\x9b']
+CTL_DEL = '\x7f'
+
+
+def is_ctl(ch):
+    return ch == CTL_DEL or ch in CTL_BELL
+
+
+def cell_of(ch):
+    """the code point the terminal shows in the (first) cell of character ch"""
+    if ch == CTL_DEL:
+        return 32
+    if ch in CTL_BELL:
+        return BELL_GLYPH
+    return ord(ch)
 
 
 def cwid(ch, pos):
@@ -79,7 +101,7 @@ def render(line, left, cols):
         if b >= 0 and e < cols:
             if ch == '\t':
                 continue
-            cells[b] = ord(ch)
+            cells[b] = cell_of(ch)
             if w == 2:
                 cells[b + 1] = 0
     return cells
@@ -97,6 +119,20 @@ def window(buf, top, left, h, cols):
 
 def cells_str(row):
     return ''.join(chr(c) if c else '' for c in row).rstrip()
+
+
+def ctl_lines(rng, lines, cols, every=2):
+    """plant control characters (DEL half of the time) into about one line in `every`"""
+    out = []
+    for l in lines:
+        if rng.chance(1, every):
+            for _ in range(rng.choice([1, 1, 2, 3])):
+                ch = CTL_DEL if rng.chance(1, 2) else rng.choice(CTL_BELL + ['\x1b', '\r', '\x01', '\x08'])
+                at = rng.choice([0, 1, 2, len(l) // 2, max(0, len(l) - 1), len(l), min(len(l), max(0, cols - 1)), min(len(l), cols), min(len(l), cols + cols // 2)])
+                at = min(at, len(l))
+                l = l[:at] + ch + l[at:]
+        out.append(l)
+    return out
 
 
 # --------------------------------------------------------------------------------------------
@@ -212,8 +248,12 @@ class Gen:
             ':%d,%dt.' % (a, b), ':t.', ':1,$j', ':%d,%dj' % (a, b), ':%d,%dy' % (a, b), ':pu', ':0pu', ':se hll', ':se nohll', ':se hl', ':se nohl', ':se ai', ':se noai',
             ':%d,%d>' % (a, b), ':%d,%d<' % (a, b), ':u', ':rd', ':%dk a' % a, ':foo', ':%d,%dd|foo' % (a, b), ':1,%dp' % b, ':%d=' % a, ':%d,%dp' % (a, a),
             ':$a\nnew1\nnew2\n.', ':%di\nins\n.' % a, ':%d,%dc\nchg\n.' % (a, b), ':v/a/d', ':%d,%dg/./m0' % (a, b),
+            SHELL, SHELL,
         ])
         tail = b'\n'
+        if c == SHELL:
+            tail = b'\n\n'              # [enter to continue] after the child (on a modified buffer the command fails: the second
+                                        # newline is then a motion)
         if c.startswith(':1,') and c.endswith('p') or c.endswith('='):
             tail = b'\n\n'              # answers a possible [enter to continue]
         return c.encode() + tail
@@ -239,12 +279,17 @@ class Gen:
         return ctl('l')
 
 
+# the last weight: what is left of 100 is ^L (term_done(); term_init(); full repaint)
 PROFILES = {
-    'mixed':   [25, 40, 55, 62, 80, 88, 98],
-    'scroll':  [25, 75, 80, 82, 90, 95, 99],
-    'edit':    [15, 25, 45, 58, 85, 95, 99],
-    'motion':  [70, 85, 90, 92, 96, 98, 99],
+    'mixed':   [25, 40, 55, 62, 79, 87, 96],
+    'scroll':  [25, 74, 79, 81, 89, 94, 97],
+    'edit':    [15, 25, 45, 58, 84, 93, 97],
+    'motion':  [70, 85, 90, 92, 95, 97, 98],
 }
+# `:!cmd` hands the terminal to a child: cmd_pipe() calls term_done() before and term_init() after it.  The child's stdin is
+# /dev/null (never the key pipe), it writes nothing.  Needs an unmodified buffer (else "buffer modified": a failed command).
+SHELL = ':!true </dev/null'
+REINIT = [b'\x0c', SHELL.encode() + b'\n\n']
 
 
 def gen_lines(rng, n, cols, style):
@@ -277,12 +322,17 @@ def gen_case(rng, quick, k):
     h = rows - 1
     n = rng.choice([0, 0, 1, 2, max(h - 1, 1), h, h + 1, 2 * h, 2 * h + 3, 3 * h + 1, 5 * h])
     n = min(n, 70)
-    style = rng.choice(['plain', 'mixed', 'mixed', 'wide'])
-    lines = gen_lines(rng, n, cols, style)
+    style = rng.choice(['plain', 'mixed', 'mixed', 'wide', 'ctl'])
+    lines = gen_lines(rng, n, cols, 'mixed' if style == 'ctl' else style)
+    if style == 'ctl':
+        lines = ctl_lines(rng, lines, cols)
     prof = rng.choice(['mixed', 'mixed', 'scroll', 'edit', 'motion'])
     g = Gen(rng, rows, cols, n)
     natoms = rng.range(3, 8 if quick else 14)
     atoms = [g.atom(PROFILES[prof]) for _ in range(natoms)]
+    if rng.chance(1, 6):
+        # the terminal is re-initialised early in the session (the buffer is still unmodified: `:!cmd` runs)
+        atoms.insert(rng.below(2), rng.choice(REINIT))
     return finish_case(rng, rows, cols, lines, atoms, prof, quick)
 
 
@@ -316,11 +366,15 @@ def ml_text(rng, h, ai=False):
     return '\n'.join(ws).encode()
 
 
+AIMED_SHAPES = ['top-O', 'bot-o', 'mid-i', 'ai', 'bot-J', 'put', 'bot-dd', 'horiz', 'horiz', 'scrollmix', 'sticky', 'bot-o', 'top-back', 'cput', 'c-below',
+                'reinit', 'ctl', 'reinit']
+
+
 def gen_aimed(rng, quick, k):
     rows = rng.choice([3, 4, 5, 6, 8, 10])
     cols = rng.choice([8, 10, 20, 20, 40])
     h = rows - 1
-    shape = ['top-O', 'bot-o', 'mid-i', 'ai', 'bot-J', 'put', 'bot-dd', 'horiz', 'horiz', 'scrollmix', 'sticky', 'bot-o', 'top-back', 'cput', 'c-below'][k % 15]
+    shape = AIMED_SHAPES[k % len(AIMED_SHAPES)]
     n = rng.choice([h, h + 1, 2 * h + 1, 3 * h + 2, 4 * h + 1])
     style = 'plain' if shape not in ('horiz',) else 'mixed'
     lines = gen_lines(rng, n, cols, style)
@@ -351,6 +405,20 @@ def gen_aimed(rng, quick, k):
         h = rows - 1
         n = rng.choice([2 * h + 3, 3 * h + 2, 4 * h + 1])
         lines = gen_lines(rng, n, cols, 'plain')
+    if shape == 'reinit':
+        rows = rng.choice([3, 4, 5, 6, 8, 10, 24])
+        h = rows - 1
+        n = rng.choice([h, h + 1, 2 * h + 1, 3 * h + 2])
+        lines = gen_lines(rng, n, cols, 'plain')
+    if shape == 'ctl':
+        # control characters in the buffer lines: short lines, and lines longer than the window with a control character before,
+        # at and after the column where the scrolled window starts; a letter after every control character to aim f/t at
+        lines = gen_lines(rng, n, cols, 'mixed')
+        for i in range(0, n, 3):
+            lines[i] = ''.join(rng.choice('abcdefghijklmnopqrstuvwxyz  ') for _ in range(rng.choice([3, cols - 2, cols + 1, cols + cols // 2, 2 * cols + 1]))).strip() or 'xy'
+        lines = ctl_lines(rng, lines, cols, every=1 if rng.chance(1, 2) else 2)
+    if shape == 'horiz' and rng.chance(1, 3):
+        lines = ctl_lines(rng, lines, cols)
     g = Gen(rng, rows, cols, n)
     e = lambda x: x.encode() if isinstance(x, str) else x
 
@@ -459,6 +527,33 @@ def gen_aimed(rng, quick, k):
             for _ in range(rng.range(2, 4)):
                 A += [rng.choice([b'', b'', b'2', b'3']) + sc]
             A += rng.choice([[b'x', b'u'], [b'rX'], [ctl('y') if fwd else ctl('e')], [b'~']])
+    elif shape == 'reinit':
+        # the terminal is re-initialised during the session (^L: term_done(); term_init();  `:!cmd`: cmd_pipe() does the same around
+        # the child), no window command follows, then an insert opens a line on the BOTTOM text row: vi_nextline() writes '\n' and
+        # relies on the terminal's scroll region being the text rows again (coq: C19_reinit_region_iff, C19_nextline_bottom_needs_region)
+        def opener():
+            t = rng.choice([ml_text(rng, h), g.text(), b'new', b'x\ny'])
+            return rng.choice([b'o' + t + ESC, b'o' + t + ESC, b'A' + rng.choice([b'', b'x']) + b'\n' + t + ESC, b'i\n' + ESC, b'cc' + b'a\nb' + ESC, b'S' + t + b'\n' + ESC, b'2o' + b'z' + ESC])
+        A += rng.choice([[REINIT[0]], [REINIT[1]], [g.motion(), REINIT[0]], [REINIT[1], REINIT[0]], [g.scroll(), REINIT[1]], [g.edit(), REINIT[0]], [g.insert(), b'u', REINIT[0]]])
+        for _ in range(rng.below(3)):
+            A += [rng.choice([g.scroll, g.motion, g.ex, g.edit, g.undo])()]
+        A += to_bot() + [opener()] + undo3() + [g.scroll()]
+        if rng.chance(1, 2):
+            A += [REINIT[0]]
+        A += rng.choice([to_bot(), [b'G'], to_bot() + [b'k', b'j']]) + [opener()] + rng.choice([[], [b'u'], [ctl('e')], [ctl('y')]])
+    elif shape == 'ctl':
+        ctlrows = [i for i, l in enumerate(lines) if any(is_ctl(ch) for ch in l)] or [0]
+        for _ in range(3):
+            ln = rng.choice(ctlrows)
+            l = lines[ln]
+            after = [l[j + 1] for j in range(len(l) - 1) if is_ctl(l[j]) and l[j + 1].isalnum()]
+            mv = [b'$', b'$', b'0', b'w', b'e', b'$h', b'3l', e('%d|' % cols), e('%d|' % (cols + 2)), b'ww', b'$b', e('%dl' % (cols // 2))]
+            if after:
+                mv += [e('f' + rng.choice(after)), e('t' + rng.choice(after)), e('f' + rng.choice(after))]
+            A += [e('%dG' % (ln + 1)), rng.choice(mv)]
+            A += [rng.choice([b'x', b'rZ', b'~', b'iab' + ESC, b'a' + g.text(nl=False) + ESC, b'A' + g.text(nl=False) + ESC, b'D', b'cwQ' + ESC, b'yyp', b'J', b'X',
+                              b'o' + g.text() + ESC, b'dw', b'>>', b'i\n' + ESC, b'kJ', b'h', b'l', b'k$', b'j$'])]
+            A += rng.choice([[b'u'], [b'u', ctl('r')], [], [rng.choice([b'j', b'k', b'$', b'0', ctl('e'), ctl('y')])]])
     else:   # scrollmix
         for _ in range(4):
             A += [g.scroll(), rng.choice([g.edit, g.insert, g.change, g.undo, g.edit])()]
@@ -750,7 +845,7 @@ def view(st, off, h):
 def renderable(buf):
     for l in buf:
         for ch in l:
-            if ch == '\t' or ch in WIDE or ch in NARROW2:
+            if ch == '\t' or ch in WIDE or ch in NARROW2 or is_ctl(ch):
                 continue
             if not (32 <= ord(ch) < 127):
                 return False
@@ -1250,6 +1345,14 @@ def run(ctx):
                 res.count('split: inactive window judged after a both-window repaint')
         if r.get('left'):
             res.count('states with left > 0')
+        if r.get('buf') and r.get('top') is not None:
+            (_, hh), _ = geometry(c['rows'], r.get('split'), r.get('act'))
+            vis = r['buf'][r['top']:r['top'] + hh]
+            if any(is_ctl(ch) for l in vis for ch in l):
+                res.count('states with a control character on a visible line')
+                xr, xo = r.get('xrow', 0), r.get('xoff', 0)
+                if xr < len(r['buf']) and CTL_DEL in r['buf'][xr][:xo]:
+                    res.count('states with a DEL left of the cursor on the cursor line')
         if r.get('repaint_moved_window'):
             res.count('forced repaint chose another (valid) window')
         if r.get('top'):
@@ -1268,6 +1371,101 @@ def run(ctx):
     if WFIX:
         wfix_correspondence(ctx, model, cases, results)
         put_correspondence(ctx, model, cases, results)
+        region_correspondence(ctx, exe, model, cases, results)
+
+
+def is_reinit(a):
+    """does the command hand the terminal over and take it back (term_done(); term_init();)?"""
+    b = a.lstrip(DIGITS)
+    return b == b'\x0c' or b[:2] == b':!'
+
+
+def region_correspondence(ctx, exe, model, cases, results):
+    """model vs code: the scroll region of the emulator after the real stream equals the region the model of term.c's output
+    side (coq/TermOutDefs.v: term_window, and term_done(); term_init() after a ^L / `:!cmd`) leaves on the emulator for the
+    text rows of the active window -- at every probe point (between commands, inside inserts, after the forced repaint).
+    One-row windows are skipped (a one-line region is ignored by the terminal).  A disagreement is followed by a search for
+    a key continuation on which the oracle fails (an insert that opens a line on the bottom row, scrolls)."""
+    res = ctx.res
+    want = {}
+    keys = []
+    for (ci, pr), r in results.items():
+        if r.get('status') not in ('ok', 'fail') or 'st' not in r:
+            continue
+        c = cases[ci]
+        (woff, h), _ = geometry(c['rows'], r.get('split'), r.get('act'))
+        if h < 2:
+            continue
+        i = pr[1]
+        last = bytes.fromhex(c['atoms'][i - 1]) if (pr[0] == 'cmd' and i) else b''
+        k = (c['rows'], c['cols'], woff, h, 1 if is_reinit(last) else 0)
+        keys.append((ci, pr, k))
+        want.setdefault(k, None)
+    if not keys:
+        return
+    ks = sorted(want)
+    rc, out, err = vlib.run_lines(model, ['region %d %d %d %d %d 0' % k for k in ks], timeout=300)
+    if rc != 0 or len(out) != len(ks):
+        res.disagree({'what': 'model_term region requests failed', 'stderr': err[-500:]})
+        return
+    for k, o in zip(ks, out):
+        w = o.split()
+        want[k] = (int(w[0]), int(w[1]))
+        if int(w[2]):
+            res.disagree({'what': 'the emulator does not know a sequence the term.c output model writes', 'model': o})
+    bad = []
+    for ci, pr, k in keys:
+        r = results[(ci, pr)]
+        res.count('scroll region correspondence cases' + (' right after a re-initialisation (^L, :!cmd)' if k[4] else ''))
+        got = (r['st']['top'], r['st']['bot'])
+        if got != want[k]:
+            bad.append((ci, pr, k, got))
+    # the states after a re-initialisation that are followed (no window command between) by an insert on the bottom row
+    for ci, c in enumerate(cases):
+        seen = False
+        for i, a in enumerate(c['atoms']):
+            ab = bytes.fromhex(a)
+            if is_reinit(ab):
+                seen = True
+            elif win_cmd(ab):
+                seen = False
+            elif seen and insert_body(ab) and b'\n' in ab[:-1] + (b'\n' if ab.lstrip(DIGITS)[:1] in (b'o',) else b''):
+                p = results.get((ci, ('cmd', i)))
+                (woff, h), _ = geometry(c['rows'], p.get('split'), p.get('act')) if p else ((0, 0), None)
+                if p and p.get('st') and p.get('status') == 'ok' and p['st']['r'] - woff == h - 1:
+                    res.count('an insert that opens a line on the bottom text row after a re-initialisation of the terminal')
+    if not bad:
+        return
+    bad.sort(key=lambda x: (x[0], x[1][1], 0 if x[1][0] == 'cmd' else 1))
+    ci, pr, k, got = bad[0]
+    c = cases[ci]
+    # search harder: continuations that depend on the bottom margin of the region
+    found = 0
+    tried = set()
+    for ci2, pr2, k2, got2 in bad[:40]:
+        if pr2[0] != 'cmd' or (ci2, pr2[1]) in tried or found >= 2 or len(tried) >= 6:
+            continue
+        tried.add((ci2, pr2[1]))
+        base, _ = sub_case(cases[ci2], pr2)
+        for cont in ([b'L', b'oq' + ESC], [b'G', b'oq' + ESC], [b'L', b'Aq\nr' + ESC], [b'L', b'3\x05'], [b'H', b'2\x19'], [b'L', b'dd'], [b'H', b'Oq' + ESC]):
+            c2 = dict(base)
+            c2['atoms'] = base['atoms'] + [x.hex() for x in cont]
+            c2['mid'] = []
+            c2['profile'] = 'region-search'
+            hit = False
+            for j in range(len(base['atoms']) + 1, len(c2['atoms']) + 1):
+                r2 = eval_probe(exe, model, c2, ('cmd', j))
+                res.evaluations += 1
+                if r2['status'] == 'fail':
+                    report(res, exe, model, c2, ('cmd', j), r2)
+                    found += 1
+                    hit = True
+                    break
+            if hit:
+                break
+    res.disagree({'what': 'the scroll region of the terminal after the real stream differs from the region the term.c output model (TermOutDefs.v) sets for the text rows of the active window',
+                  'input': {'case': sub_case(c, pr)[0], 'keys': keys_repr(c, pr[1] + (1 if pr[0] == 'ins' else 0)), 'probe': list(pr), 'request': 'region %d %d %d %d %d 0' % k},
+                  'implementation': list(got), 'model': list(want[k]), 'states that disagree': len(bad), 'violating continuations found': found})
 
 
 def atom_kind(a):
